@@ -1,4 +1,4 @@
-import B6.Lemmas.CompactIndexRecords
+import B6.Lemmas.CompactIndexLookup
 /-!
 # C01 — the compact index round-trips every feature it accepts
 
@@ -15,16 +15,19 @@ What is proved, for ALL strings tables, namespace tables, ids (every 64-bit valu
   `value_roundtrip_plain`), tag lists (`tags_roundtrip`, `tags_roundtrip_plain`);
 * the feature records: what `decodeFeature` (the reader: `newPhysicalFeatureFromTagged`,
   `newWrappedPhysicalFeatureFromBuffer`, `marshalledRelation.fillMembers`, `MarshalledTags.AllTags`,
-  `fromCompactValue`) makes of the bytes `pathRecord` / `relationRecord` / the point scratch entry
-  produce is the source feature — `point_roundtrip`, `path_roundtrip`, `relation_roundtrip` — with the
+  `fromCompactValue`) makes of the bytes `pathRecord` / `areaRecord` / `relationRecord` / the point scratch entry
+  produce is the source feature — `point_roundtrip`, `path_roundtrip`, `area_roundtrip`, `relation_roundtrip` — with the
   reader using the header of the block the record lives in and the writer the namespaces build.go passes;
 * `primary_agree`: for every (record, field) the primary namespace the writer marshals against is the one
   the reader unmarshals against (table transcribed from build.go / encoding.go / world.go; `by decide`).
 
-What is not proved and stays visible as a statement: `area_roundtrip_statement` (the area record: the
-geometry bookkeeping `refStarts` / `bounds` / `splitAt`) and `compact_roundtrip_statement` (the index level:
-block routing by namespace, lookup by id among distinct ids, `each` a duplicate free permutation).  Both are
-carried by the correspondence run, which compares every block byte for byte and every `find` / `each` answer.
+* `find_routed`: `FindFeatureByID` returns the reader's view of the entry of the one block that routes.
+
+What is not proved and stays visible as a statement: `compact_roundtrip_statement` (the index level: the build
+succeeds on `Accepts` and puts every record in the one block that routes, ids distinct within it; `each` a
+duplicate free permutation).  It is carried by
+the correspondence run, which compares every block byte for byte and every `find` / `each` answer, and by a
+kernel-checked concrete index (`exRoundTrips`).
 
 Counterexamples (the code before the repairs, and the recorded finding): `mixed_path_nil_counterexample`,
 `relation_relations_primary_counterexample`, `fid_tag_value_counterexample`.
@@ -116,6 +119,38 @@ theorem relation_roundtrip (c : Ctx) (hc : CtxOK c) (fs : List Feature) (g : Fea
     decodeFeature c.strs c.nt (blockHeader c 3 n) id data = some { id := id, tags := g.tags, members := g.members } :=
   relation_record_roundtrip c hc fs g hvals hms data h n hn id hid
 
+/-- **areas**: tags and polygons — by path ids, by explicit loops, or both in any order — through the header of
+the area's own block; explicit polygons with fewer than three points are dropped (`canonPolys`), as
+`PolygonGeometryLatLngs.IsValid` demands.  `polyOK`: a path polygon names at least one path (an empty one is
+indistinguishable from "no boundary recorded"), sizes are those of Go slices. -/
+theorem area_roundtrip (c : Ctx) (hc : CtxOK c) (fs : List Feature) (g : Feature)
+    (hvals : ∀ t ∈ g.tags, t.val.plain = true) (hok : ∀ p ∈ g.polys, polyOK p)
+    (hsize : (g.polys.filterMap pathsOf).flatten.length < 2 ^ 64) (data : Bytes)
+    (h : areaRecord c fs g = .ok data) (n : Nat) (id : FID) (hid : id.typ = 2) :
+    decodeFeature c.strs c.nt (blockHeader c 2 n) id data =
+      some { id := id, tags := g.tags, polys := canonPolys g.polys } :=
+  area_record_roundtrip c hc fs g hvals hok hsize data h n id hid
+
+/-- the geometry alone, with the fact C11's `area_roundtrip` needs of it (`canonical`) -/
+theorem area_geometry_roundtrip (c : Ctx) (hc : CtxOK c) (a : Feature) (hok : ∀ p ∈ a.polys, polyOK p)
+    (hsize : (a.polys.filterMap pathsOf).flatten.length < 2 ^ 64) (g : AreaGeometry) (h : areaGeometry c a = .ok g) :
+    polysOfGeometry c.nt g = some (canonPolys a.polys) ∧ g.canonical = true :=
+  areaGeometry_roundtrip c hc a hok hsize g h
+
+/-! ## index level, given the routing -/
+
+/-- `FindFeatureByID`: if exactly one block of the id's type carries the id's encoded namespace in its header
+and that block holds the id once (`Holds`: the entry is there, no other entry has the id, it is not a
+references-only point record / it is the `NoTag` entry / a non-empty area record), the answer is the reader's
+view of that entry — whatever else is in the index.  Together with the record theorems above this is the
+round trip for every feature *the builder put where `compact_roundtrip_statement` says it does* (which the
+correspondence run checks byte for byte). -/
+theorem find_routed (ix : Index) (id : FID) (n : Nat) (hn : nsEncode ix.nt id.ns = some n) (b : Block)
+    (e : B6.Model.Containers.Entry)
+    (hroute : (ix.blocks.filter fun b' => b'.typ == id.typ && nssGet b'.hdr id.typ == ns16 n) = [b])
+    (h : Holds b id e) : find ix id = some (decodeFeature ix.strs ix.nt b.hdr id e.data) :=
+  find_of_block ix id n hn b e hroute h
+
 /-! ## a concrete index (non-vacuity of everything above, and a test of the statements below) -/
 
 def nsCustom : Str := [97, 47, 98]   -- "a/b"
@@ -149,13 +184,6 @@ def exRoundTrips : Bool :=
 example : exRoundTrips = true := by decide +kernel
 
 /-! ## statements carried by the correspondence run (NOT proved) -/
-
-/-- the area record: tags, and polygons by path ids / explicit loops / both, read through the header of the
-area's own block. -/
-def area_roundtrip_statement : Prop :=
-  ∀ (c : Ctx) (_ : CtxOK c) (fs : List Feature) (g : Feature) (_ : featureOK fs g = true) (_ : g.id.typ = 2)
-    (data : Bytes) (_ : areaRecord c fs g = .ok data) (n : Nat),
-    decodeFeature c.strs c.nt (blockHeader c 2 n) g.id data = some { id := g.id, tags := g.tags, polys := canonPolys g.polys }
 
 /-- **the property**: on every accepted feature set the build succeeds, every feature is found by its id as
 its canonical form, and `each` enumerates every id exactly once. -/
